@@ -77,6 +77,8 @@ def key(lines, names):
 
 def selftest(rep, trace, cfg):
     """Corrupt one projected balance of one Commit: strict must reject, observe must break the invariant."""
+    if rep.violations or rep.divergences:
+        return      # the code under test already deviates: report that, the self-test needs conforming traces
     for w in vlib.split_trace(trace):
         w = list(w)
         for i in range(len(w) - 1, 0, -1):
